@@ -146,7 +146,9 @@ theorem members_succ (fuel : Nat) (first : Bool) (inp : List Nat) (total : Nat) 
     members (fuel + 1) first inp total acc n cap =
       if (inp.take 4).isEmpty then .ok acc (total - (inp.drop 4).length) n
       else if inp.take 4 ≠ Consts.LZIP_MAGIC then
-        (if first then .err .invalidData else .ok acc (total - (inp.drop 4).length) n)
+        (if first then .err .invalidData
+         else if (inp.take 4).isPrefixOf Consts.LZIP_MAGIC then .err .eof
+         else .ok acc (total - (inp.drop 4).length) n)
       else afterMagic fuel (inp.drop 4) total acc n cap := by
   rfl
 
@@ -268,16 +270,61 @@ theorem members_prefix (ms : List (Nat × List Nat × List Nat)) (hm : ∀ m ∈
         (by rw [List.length_append]; omega)]
     simp
 
-/-- the loop on input that does not start with the magic, after at least one member -/
+/-- a list of exactly four bytes is a prefix of the magic only if it is the magic -/
+theorem isPrefixOf_magic_of_length {x : List Nat} (hl : x.length = 4) (hx : x ≠ Consts.LZIP_MAGIC) :
+    x.isPrefixOf Consts.LZIP_MAGIC = false := by
+  cases h : x.isPrefixOf Consts.LZIP_MAGIC with
+  | false => rfl
+  | true =>
+    exfalso
+    have hp : x <+: Consts.LZIP_MAGIC := List.isPrefixOf_iff_prefix.mp h
+    obtain ⟨t, ht⟩ := hp
+    have hlen := congrArg List.length ht
+    rw [List.length_append, hl] at hlen
+    have : t = [] := by
+      cases t with
+      | nil => rfl
+      | cons a t => simp [Consts.LZIP_MAGIC] at hlen
+    rw [this, List.append_nil] at ht
+    exact hx ht
+
+/-- trailing data that the reader ignores: it does not start with the magic (`t.take 4 ≠ LZIP_MAGIC`, stated
+    separately) and it is not a non-empty proper prefix of the magic at the end of the input.  Decidable; holds for
+    `[]` (`trailingOk_nil`) and for every trailing of at least 4 bytes that does not start with the magic
+    (`trailingOk_long`). -/
+def TrailingOk (t : List Nat) : Prop := t = [] ∨ (t.take 4).isPrefixOf Consts.LZIP_MAGIC = false
+
+instance (t : List Nat) : Decidable (TrailingOk t) := by unfold TrailingOk; infer_instance
+
+theorem trailingOk_nil : TrailingOk [] := Or.inl rfl
+
+theorem trailingOk_long {t : List Nat} (hl : 4 ≤ t.length) (ht : t.take 4 ≠ Consts.LZIP_MAGIC) : TrailingOk t :=
+  Or.inr (isPrefixOf_magic_of_length (by rw [List.length_take]; omega) ht)
+
+/-- the loop on input that does not start with the magic (and is not a fragment of it), after at least one member -/
 theorem members_stop (fuel : Nat) (inp : List Nat) (total : Nat) (acc : List Nat) (n : List Member) (cap : Nat)
-    (ht : inp.take 4 ≠ Consts.LZIP_MAGIC) :
+    (ht : inp.take 4 ≠ Consts.LZIP_MAGIC) (ht2 : TrailingOk inp) :
     members (fuel + 1) false inp total acc n cap = .ok acc (total - (inp.drop 4).length) n := by
   rw [members_succ]
-  simp only [ne_eq, ht, not_false_eq_true, if_true, Bool.false_eq_true, if_false, ite_self]
+  rcases ht2 with rfl | h
+  · rfl
+  · simp only [ne_eq, ht, not_false_eq_true, if_true, Bool.false_eq_true, if_false, h, ite_self]
+
+/-- the loop on input that ends inside the magic of a further member -/
+theorem members_magic_fragment (fuel : Nat) (inp : List Nat) (total : Nat) (acc : List Nat) (n : List Member)
+    (cap : Nat) (hne : inp ≠ []) (ht : inp.take 4 ≠ Consts.LZIP_MAGIC)
+    (hp : (inp.take 4).isPrefixOf Consts.LZIP_MAGIC = true) :
+    members (fuel + 1) false inp total acc n cap = .err .eof := by
+  rw [members_succ]
+  have : (inp.take 4).isEmpty = false := by
+    cases inp with
+    | nil => exact absurd rfl hne
+    | cons a t => rfl
+  simp only [this, Bool.false_eq_true, if_false, ne_eq, ht, not_false_eq_true, if_true, hp]
 
 /-- round trip with the member records made explicit (and without the unused `Bytes lzma` hypothesis) -/
 theorem lzip_roundtrip_recs (ms : List (Nat × List Nat × List Nat)) (hne : ms ≠ []) (hm : ∀ m ∈ ms, MemberOk m)
-    (trailing : List Nat) (ht : trailing.take 4 ≠ Consts.LZIP_MAGIC)
+    (trailing : List Nat) (ht : trailing.take 4 ≠ Consts.LZIP_MAGIC) (ht2 : TrailingOk trailing)
     (cap : Nat) (hcap : (fileData ms).length ≤ cap) :
     decode (fileBytes ms ++ trailing) cap =
       .ok (fileData ms) ((fileBytes ms).length + min 4 trailing.length) (fileRecs ms) := by
@@ -288,10 +335,17 @@ theorem lzip_roundtrip_recs (ms : List (Nat × List Nat × List Nat)) (hne : ms 
   have hms : ms.isEmpty = false := by cases ms with | nil => exact absurd rfl hne | cons _ _ => rfl
   unfold decode
   rw [hfuel, members_prefix ms hm _ _ _ _ _ _ _ (by simpa using hcap), hms, Bool.and_false,
-    members_stop _ _ _ _ _ _ ht]
+    members_stop _ _ _ _ _ _ ht ht2]
   simp only [List.nil_append, List.append_nil, List.length_append, List.length_drop]
   congr 1
   omega
+
+/-- round trip of a file without trailing data -/
+theorem lzip_roundtrip_recs_nil (ms : List (Nat × List Nat × List Nat)) (hne : ms ≠ []) (hm : ∀ m ∈ ms, MemberOk m)
+    (cap : Nat) (hcap : (fileData ms).length ≤ cap) :
+    decode (fileBytes ms) cap = .ok (fileData ms) (fileBytes ms).length (fileRecs ms) := by
+  have h := lzip_roundtrip_recs ms hne hm [] (by decide) trailingOk_nil cap hcap
+  simpa using h
 
 /-- **LZIP round trip / concatenation (C02, C12, C16)**: any sequence of members, each written with a dictionary byte
     the reader accepts and a payload the codec round-trips, followed by trailing bytes that do NOT start with the magic
@@ -301,7 +355,7 @@ theorem lzip_roundtrip (ms : List (Nat × List Nat × List Nat))     -- (dictByt
     (hne : ms ≠ [])
     (hm : ∀ m ∈ ms, ∃ dict, Lzip.decodeDict m.1 = some dict ∧ PayloadOk (lzmaReaderDictBuf dict none 0) m.2.1 m.2.2 ∧
                      Bytes m.2.1 ∧ Bytes m.2.2 ∧ m.2.2.length < 2^64 ∧ m.2.1.length + 26 < 2^64)
-    (trailing : List Nat) (ht : trailing.take 4 ≠ Consts.LZIP_MAGIC)
+    (trailing : List Nat) (ht : trailing.take 4 ≠ Consts.LZIP_MAGIC) (ht2 : TrailingOk trailing)
     (cap : Nat) (hcap : ((ms.map (·.2.2)).flatten).length ≤ cap) :
     ∃ recs, LzipFile.decode ((ms.map fun m => memberBytes m.1 m.2.1 m.2.2).flatten ++ trailing) cap
       = .ok (ms.map (·.2.2)).flatten (((ms.map fun m => memberBytes m.1 m.2.1 m.2.2).flatten).length + min 4 trailing.length) recs := by
@@ -309,7 +363,7 @@ theorem lzip_roundtrip (ms : List (Nat × List Nat × List Nat))     -- (dictByt
     intro m h
     obtain ⟨dict, h1, h2, _, h3, h4, h5⟩ := hm m h
     exact ⟨dict, h1, h2, h3, h4, h5⟩
-  exact ⟨fileRecs ms, lzip_roundtrip_recs ms hne hm' trailing ht cap hcap⟩
+  exact ⟨fileRecs ms, lzip_roundtrip_recs ms hne hm' trailing ht ht2 cap hcap⟩
 
 /-! ## C04: rejection of damaged input -/
 
@@ -486,7 +540,7 @@ theorem members_accept (fuel : Nat) (first : Bool) (inp : List Nat) (total : Nat
     (cap : Nat) (data : List Nat) (consumed : Nat) (recs : List Member) (hb : Bytes inp)
     (h : members fuel first inp total acc n cap = .ok data consumed recs) :
     ∃ new tail, recs = new ++ n ∧ data = acc ++ (new.reverse.map (·.data)).flatten ∧
-      inp = reassemble new.reverse ++ tail ∧ tail.take 4 ≠ Consts.LZIP_MAGIC ∧
+      inp = reassemble new.reverse ++ tail ∧ tail.take 4 ≠ Consts.LZIP_MAGIC ∧ TrailingOk tail ∧
       consumed = total - (tail.drop 4).length ∧ (first = true → new = [] → inp = []) ∧
       ∀ m ∈ new, MemberDecodes m := by
   induction fuel generalizing first inp acc n with
@@ -496,7 +550,11 @@ theorem members_accept (fuel : Nat) (first : Bool) (inp : List Nat) (total : Nat
     split at h
     · rename_i hemp
       cases h
-      refine ⟨[], inp, rfl, by simp, by simp [reassemble], ?_, rfl, ?_, by simp⟩
+      have hnil : inp = [] := by
+        cases inp with
+        | nil => rfl
+        | cons a t => cases hemp
+      refine ⟨[], inp, rfl, by simp, by simp [reassemble], ?_, Or.inl hnil, rfl, ?_, by simp⟩
       · intro hc; rw [hc] at hemp; cases hemp
       · intro _ _
         cases inp with
@@ -507,8 +565,13 @@ theorem members_accept (fuel : Nat) (first : Bool) (inp : List Nat) (total : Nat
         cases first with
         | true => cases h
         | false =>
-          cases h
-          exact ⟨[], inp, rfl, by simp, by simp [reassemble], hmag, rfl, (fun h => by cases h), by simp⟩
+          simp only [Bool.false_eq_true, if_false] at h
+          split at h
+          · cases h
+          · rename_i hpre
+            cases h
+            exact ⟨[], inp, rfl, by simp, by simp [reassemble], hmag, Or.inr (Bool.eq_false_iff.mpr hpre), rfl,
+              (fun h => by cases h), by simp⟩
       · rename_i hmag
         simp only [ne_eq, Decidable.not_not] at hmag
         obtain ⟨db, inp3, dict, out, c, parse, hinp1, hd, hdec, hlen, hcrc, hds, hms, hrec⟩ := afterMagic_ok h
@@ -519,10 +582,10 @@ theorem members_accept (fuel : Nat) (first : Bool) (inp : List Nat) (total : Nat
           have := (Bytes.of_append hb).2
           exact fun x hx => this x (List.mem_cons_of_mem _ (List.mem_cons_of_mem _ hx))
         have hb4 : Bytes (inp3.drop c) := hb3.drop c
-        obtain ⟨new, tail, hr, hdat, hin, htl, hcons, _, hdecs⟩ := ih false _ _ _ (hb4.drop 20) hrec
+        obtain ⟨new, tail, hr, hdat, hin, htl, htl2, hcons, _, hdecs⟩ := ih false _ _ _ (hb4.drop 20) hrec
         have hc : c ≤ inp3.length := by rw [List.length_drop] at hlen; omega
         have hlz : (inp3.take c).length = c := by rw [List.length_take]; omega
-        refine ⟨new ++ [{ dictByte := db, lzma := inp3.take c, data := out.toList }], tail, ?_, ?_, ?_, htl, hcons,
+        refine ⟨new ++ [{ dictByte := db, lzma := inp3.take c, data := out.toList }], tail, ?_, ?_, ?_, htl, htl2, hcons,
           ?_, ?_⟩
         · rw [hr]; simp
         · rw [hdat]; simp
@@ -555,7 +618,7 @@ theorem decode_accept (inp : List Nat) (cap : Nat) (data : List Nat) (consumed :
       consumed = (reassemble recs.reverse).length + min 4 tail.length ∧
       (recs = [] → inp = []) ∧ ∀ m ∈ recs, MemberDecodes m := by
   unfold decode at h
-  obtain ⟨new, tail, hr, hdat, hin, htl, hcons, hemp, hdecs⟩ := members_accept _ _ _ _ _ _ _ _ _ _ hb h
+  obtain ⟨new, tail, hr, hdat, hin, htl, _, hcons, hemp, hdecs⟩ := members_accept _ _ _ _ _ _ _ _ _ _ hb h
   rw [List.append_nil] at hr
   subst hr
   refine ⟨by simpa using hdat, tail, hin, htl, ?_, hemp rfl, hdecs⟩
@@ -563,6 +626,17 @@ theorem decode_accept (inp : List Nat) (cap : Nat) (data : List Nat) (consumed :
   conv => lhs; rw [hin]
   rw [List.length_append, List.length_drop]
   omega
+
+/-- … and what follows the accepted members is trailing data in the sense of `TrailingOk`: it does not start with the
+    magic and is not a fragment (non-empty proper prefix) of it -/
+theorem decode_accept_trailing (inp : List Nat) (cap : Nat) (data : List Nat) (consumed : Nat) (recs : List Member)
+    (hb : Bytes inp) (h : decode inp cap = .ok data consumed recs) :
+    ∃ tail, inp = reassemble recs.reverse ++ tail ∧ tail.take 4 ≠ Consts.LZIP_MAGIC ∧ TrailingOk tail := by
+  unfold decode at h
+  obtain ⟨new, tail, hr, _, hin, htl, htl2, _⟩ := members_accept _ _ _ _ _ _ _ _ _ _ hb h
+  rw [List.append_nil] at hr
+  subst hr
+  exact ⟨tail, hin, htl, htl2⟩
 
 theorem reassemble_append (a b : List Member) : reassemble (a ++ b) = reassemble a ++ reassemble b := by
   simp [reassemble]
@@ -600,7 +674,7 @@ example (h : PayloadOk 4096 exLzma [72, 105]) :
       subst hmem
       exact ⟨4096, hd, by rw [hbuf]; exact h, by unfold Bytes exLzma; decide, by unfold Bytes; decide,
         by simp, by simp [exLzma]⟩)
-    [1, 2, 3] (by decide) 4 (by simp)
+    [1, 2, 3] (by decide) (by decide) 4 (by simp)
   simpa [exFile, memberBytes, exLzma, le, Consts.LZIP_MAGIC] using this
 
 def Out.okWith : Out → List Nat → Nat → Bool
@@ -652,6 +726,9 @@ end NonVacuity
 #print axioms decode_later_truncated_header
 #print axioms members_accept
 #print axioms decode_accept
+#print axioms decode_accept_trailing
+#print axioms lzip_roundtrip_recs_nil
+#print axioms members_magic_fragment
 #print axioms decode_accept_trailer
 #print axioms exFile_decodes
 
